@@ -4,10 +4,11 @@ Model of rich/pretty.py: `Node` (iter_tokens, check_length, __str__, render), `_
 (expandable, check_length, expand, __str__), `traverse` (over a heap of objects with identities),
 `pretty_repr`.  Core Lean only (imports Model/Cells for `cellLen`), so the driver links natively.
 
-Every definition mirrors the Python statement by statement; quirks are kept.  Two places where
+Every definition mirrors the Python statement by statement; quirks are kept.  Three places where
 rich 9.10.0 as found was defective are selected by *variant flags* (`Variant`): `true` = rich 9.10.0 as found,
-`false` = the minimally repaired code, which /repo contains now (`fix:` commits 376cec1, e5d1b9a; see Props/C16.lean
-for the theorems and the witnesses).
+`false` = the minimally repaired code, which /repo contains now (`fix:` commits 376cec1, e5d1b9a, db5535b; see
+Props/C16.lean for the theorems and the witnesses).  Since the deepening round `Pretty.__rich_measure__` /
+`__rich_console__` are modelled on the traversed tree and the options are `Int`s as in the code.
 
 What is NOT modelled but enters as a parameter (runtime facts):
 * `repr()` of leaves: an atom is an opaque token string; for `str`/`bytes` leaves the characters are
@@ -33,7 +34,8 @@ structure Variant where
 /-- rich 9.10.0 as found (the name `today` dates from before the `fix:` commits) / the repaired code, which /repo contains now. -/
 def Variant.today : Variant := ⟨true, true, true⟩
 def Variant.repaired : Variant := ⟨false, false, false⟩
-/-- /repo after the `fix:` commits 376cec1, e5d1b9a (F26 pending). -/
+/-- /repo after the `fix:` commits 376cec1, e5d1b9a and before db5535b (F26 as found); the name dates from then:
+what /repo contains now is `Variant.repaired`. -/
 def Variant.current : Variant := ⟨false, false, true⟩
 
 /-! ### `Node` (pretty.py:244-303) -/
